@@ -1,18 +1,17 @@
 (** C16, model of sam/cigar.go and the coordinate methods of sam/record.go,
     following the Go code statement by statement. A CIGAR is a [list Z] of
     uint32 words. [sam_CigarOp_Type], [sam_CigarOp_Len], [sam_NewCigarOp],
-    [sam_consume] and [sam_Record_Bin] are regenerated from the Go source
+    [sam_consume], [sam_CigarOpType_Consumes] and [sam_Record_Bin] are regenerated from the Go source
     (Generated.v); the loops are written here by hand and are run against the
     implementation on every check. Go [int] is unbounded [Z].
     Executable definitions only. *)
 From Hts Require Import Base.Prim Generated.
 Open Scope Z_scope.
 
-(** [consume[ct]]: a Go index expression, panics when out of range. *)
-Definition consumes (ct : Z) : outcome (Z * Z) :=
-  if (0 <=? ct) && (ct <? zlen sam_consume)
-  then Ok (nth (Z.to_nat ct) sam_consume (0, 0))
-  else Panic 1.
+(** func (ct CigarOpType) Consumes() Consume — generated: types above
+    lastCigar are clamped to lastCigar, then [consume[ct]] (a bounds-checked
+    index expression). *)
+Definition consumes (ct : Z) : outcome (Z * Z) := sam_CigarOpType_Consumes ct.
 
 (** [c[i]] for a Cigar. *)
 Definition cigar_at (c : list Z) (i : Z) : outcome Z :=
